@@ -3,14 +3,14 @@
 # confirm that the seeded change compiles, the demonstration fails with it and passes without it, and the crate's existing
 # tests behave as before.
 ID=$1; TARGET=$2; shift 2; [ "$1" = "--" ] && shift
-W=/tmp/wt/$ID; S=/verif/seeded/$ID
+W=/tmp/wt/$ID; S=${SEED_DIR:-/verif/seeded/$ID}
 export CARGO_TARGET_DIR=$W/target CARGO_NET_OFFLINE=true
 cd $W || exit 2
-git checkout -q -- . ; git clean -fdq -e target
+git reset -q --hard HEAD; git clean -fdq -e target
 git apply $S/patch.diff && git apply $S/demo.diff || { echo "APPLY FAILED"; exit 2; }
 echo "== with patch: demo"; cargo test --offline $TARGET -- "$@" 2>&1 | grep -E "^test result|^test .*FAILED$|error(\[|:)" | tail -8
 git apply -R $S/patch.diff
 echo "== without patch: demo"; cargo test --offline $TARGET -- "$@" 2>&1 | grep -E "^test result|error(\[|:)" | tail -4
 git apply -R $S/demo.diff; git apply $S/patch.diff
 echo "== with patch only: existing tests ($TARGET)"; cargo test --offline $TARGET 2>&1 | grep -E "^test result|error(\[|:)" | tail -3
-git checkout -q -- .
+git reset -q --hard HEAD; git clean -fdq -e target
